@@ -13,7 +13,7 @@ import itertools
 
 import sympy as sp
 
-from .. import symx, util
+from .. import paths, symx, util
 from ..front import AnalysisError, src
 
 EXPLANATION = __doc__
@@ -608,6 +608,40 @@ def check_dispatch(ctx):
            "reactant count = number of non-empty '*'-separated names", '')
 
 
+def check_numeric_literals(ctx):
+    """A rate constant, K or n given as a number is bound to a dummy parameter created for it in that call and holding exactly that
+    number: on every path of Model._param_dict_check that stores into the dictionary, the name stored is the one handed to _add_param
+    and to set_parameter(name, float(dic[key])) on the same path."""
+    f = ctx.fn('types:Model._param_dict_check')
+    a = [x.arg for x in f.args.args[1:]]
+    dic, key = a[0], a[1]
+    ps = paths.Enumerator().run(f.body, paths.State())
+    ctx.paths += len(ps)
+    problems = []
+    n_store = 0
+    for p in ps:
+        if p.exit == 'raise':
+            continue
+        stores = [e.node for e in p.stmts() if isinstance(e.node, ast.Assign) and isinstance(e.node.targets[0], ast.Subscript)
+                  and src(e.node.targets[0]).replace(' ', '') == '%s[%s]' % (dic, key)]
+        if not stores:
+            continue
+        n_store += 1
+        nm = src(stores[-1].value)
+        added = [c for e in p.stmts() for c in paths.stmt_calls(e.node, '_add_param') if c.args and src(c.args[0]) == nm]
+        setp = [c for e in p.stmts() for c in paths.stmt_calls(e.node, 'set_parameter') if len(c.args) == 2 and src(c.args[0]) == nm]
+        vals = {src(e.node.targets[0]): src(e.node.value).replace(' ', '') for e in p.stmts() if isinstance(e.node, ast.Assign) and isinstance(e.node.targets[0], ast.Name)}
+        if not added or not setp:
+            problems.append('a path binds the numeric %s to the parameter `%s`, which was not created for it on that path [%s]' % (key, nm, paths.describe(p, 5)))
+        elif vals.get(src(setp[-1].args[1])) != 'float(%s[%s])' % (dic, key):
+            problems.append('the dummy parameter is set to %s, not to the number given' % src(setp[-1].args[1]))
+    if n_store == 0:
+        raise AnalysisError('_param_dict_check: no path stores a dummy parameter name')
+    ctx.ob('R1.2-binding', 'numeric-literals', not problems, ctx.loc('types', f),
+           'a numeric rate parameter gets a dummy parameter of its own, created in that call and holding that number (%d storing paths)' % n_store,
+           '; '.join(sorted(set(problems))[:2]))
+
+
 def check_arguments_untouched(ctx):
     """Which propensity class a reaction gets, and from which keys it is initialised, is decided from the dictionary the caller hands
     to create_reaction.  The method may complete that dictionary (the default 'species' string of mass action) only in its own copy:
@@ -891,6 +925,7 @@ def check(ctx):
         else:
             ctx.note('%s: formulas not compared because the binding obligations failed' % cls)
     check_c_arithmetic(ctx)
+    check_numeric_literals(ctx)
     check_dispatch(ctx)
     check_arguments_untouched(ctx)
     for cls in ('ModelCSimInterface', 'SafeModelCSimInterface'):
